@@ -41,7 +41,7 @@ var noEffectKinds = map[string]string{
 }
 
 func c14(c *core.Ctx, r *core.Report) {
-	r.Explain("R14.local: in escape.instructionLocality every instruction kind that touches heap memory (checker-side table from the go/ssa semantics: Store.Addr, load/receive UnOp.X, Send.Chan, MapUpdate.Map, Lookup.X, Range.X, Next.Iter, Select states' Chan, TypeAssert.X, builtin Calls) must consult the escape graph (derefsAreLocal) on that operand; a kind whose arm is an unconditional `return nil` must be outside the table; uncovered kinds must reach the conservative non-nil default. R14.local.unop: on the SSA CFG of the UnOp arm every path that returns `local` without consulting the graph must have tested the operator (so a load or receive can never take it). R14.transfer: in escape.transferFunction every kind has a case with an effect (calls into the graph) or is in the reasoned no-effect table; an empty case or a missing case silently drops the instruction's escape effect. R14.go: the go arm passes every tracked argument and the callee value to CallUnknown.")
+	r.Explain("R14.local: in escape.instructionLocality every instruction kind that touches heap memory (checker-side table from the go/ssa semantics: Store.Addr, load/receive UnOp.X, Send.Chan, MapUpdate.Map, Lookup.X, Range.X, Next.Iter, Select states' Chan, TypeAssert.X, builtin Calls) must consult the escape graph (derefsAreLocal) on that operand; a kind whose arm is an unconditional `return nil` must be outside the table; uncovered kinds must reach the conservative non-nil default. R14.local.unop: on the SSA CFG of the UnOp arm every path that returns `local` without consulting the graph must have tested the operator (so a load or receive can never take it). R14.transfer: in escape.transferFunction every kind has a case with an effect (calls into the graph) or is in the reasoned no-effect table; an empty case or a missing case silently drops the instruction's escape effect. R14.go: on the SSA of transferFunction (helpers inlined with their calling context) the go arm and the defer arm call CallUnknown with operands whose backward slice reads Call.Args and Call.Value, and for every dynamic kind of callee value that can carry data (every ssa.Value implementer but Function, Builtin, Global, Const) the node of Call.Value is created on some path whose type tests on Call.Value succeed for that kind (partial evaluation of comma-ok assertions / type-switch arms).")
 	r.NotDecided("that the escape graphs themselves over-approximate sharing (algorithmic, all programs x schedules); that CallUnknown / Call instantiation leak enough.")
 	_, instrIface := c.NamedIface(core.SSAPath, "Instruction")
 	if instrIface == nil {
@@ -170,6 +170,11 @@ func c14(c *core.Ctx, r *core.Report) {
 	}
 	r.Floor("R14.transfer", 35, "37 kinds")
 	c14go(c, r, t)
+	// ---- R14.underlying
+	underlyingRule(c, r, "R14.underlying", func(t core.TypeTest) bool { return t.PkgRel == "analysis/escape" }, map[string]string{
+		"analysis/escape.CanPointTo|a.(*types.Pointer)":                              "filter with a conservative default: a type that is not recognised as a pointer falls through to `return true` (edge allowed)",
+		"analysis/escape.*escape.EscapeGraph.copyStruct|originalTp.(*types.Struct)": "the *types.Named case is tested first in the same if/else chain and unwrapped with Underlying()",
+	}, "the instruction's pointees are not tracked: objects reachable through the named type stay Local")
 }
 
 // c14unop: path rule on the UnOp arm of instructionLocality.
@@ -221,49 +226,104 @@ func c14unop(c *core.Ctx, r *core.Report) {
 }
 
 func c14go(c *core.Ctx, r *core.Report, t *core.Dispatch) {
-	// the go arm must pass args and the callee value to CallUnknown
-	_, goT := c.NamedIface(core.SSAPath, "Instruction")
-	_ = goT
-	var goClause *ast.CaseClause
-	for _, cl := range t.Switch.Clauses {
-		for _, ty := range cl.Types {
-			if ty != nil && core.ShortType(ty) == "*ssa.Go" {
-				goClause = cl.Clause
-			}
-		}
-	}
-	if goClause == nil {
-		r.Fail("R14.go", t.Func+"|go-arm", c.Pos(t.Switch.Stmt.Pos()), "no arm for *ssa.Go: goroutine arguments never leak")
+	// SSA-level, helpers inlined with their calling context: indifferent to how the arms are split into functions.
+	fn := c.Func("analysis/escape", "functionAnalysisState.transferFunction")
+	if fn == nil {
+		r.Fail("infra.anchor-unresolved", "R14.go|transferFunction", "", "SSA function not found")
 		return
 	}
-	callsUnknown, readsArgs, readsValue := false, false, false
-	ast.Inspect(goClause, func(n ast.Node) bool {
-		switch x := n.(type) {
-		case *ast.CallExpr:
-			if o := core.CalleeObj(x, t.Pkg.TypesInfo); o != nil && o.Name() == "CallUnknown" {
-				callsUnknown = true
-			}
-		case *ast.SelectorExpr:
-			if x.Sel.Name == "Args" {
-				readsArgs = true
-			}
-			if x.Sel.Name == "Value" {
-				readsValue = true
+	_, valueIface := c.NamedIface(core.SSAPath, "Value")
+	if valueIface == nil {
+		r.Fail("infra.anchor-unresolved", "R14.go|ssa.Value", "", "interface not found")
+		return
+	}
+	// dynamic kinds of a callee value that can carry data: every ssa.Value but functions, builtins, globals (already
+	// leaked) and constants (nil)
+	var kinds []types.Type
+	for _, im := range c.Implementers(valueIface) {
+		switch core.ShortType(im) {
+		case "*ssa.Function", "*ssa.Builtin", "*ssa.Global", "*ssa.Const":
+		default:
+			kinds = append(kinds, im)
+		}
+	}
+	if len(kinds) < 25 {
+		r.Fail("infra.floor", "R14.go|value-kinds", "", fmt.Sprintf("only %d ssa.Value kinds found", len(kinds)))
+	}
+	for _, form := range []string{"Go", "Defer"} {
+		arm := strings.ToLower(form) + "-arm"
+		entries, _ := core.TypeCaseEntry(fn, form)
+		if len(entries) == 0 {
+			r.Fail("R14.go", t.Func+"|"+arm, c.Pos(fn.Pos()), "no arm for *ssa."+form+": the arguments and the closure/receiver of a "+strings.ToLower(form)+" statement never leak")
+			continue
+		}
+		entry := entries[0]
+		region := map[*ssa.BasicBlock]bool{}
+		for _, b := range fn.Blocks {
+			if entry.Dominates(b) {
+				region[b] = true
 			}
 		}
-		return true
-	})
-	var miss []string
-	if !callsUnknown {
-		miss = append(miss, "no CallUnknown")
+		isCallTo := func(name string) func(ssa.Instruction) bool {
+			return func(ins ssa.Instruction) bool {
+				call, ok := ins.(*ssa.Call)
+				if !ok {
+					return false
+				}
+				sc := call.Call.StaticCallee()
+				return sc != nil && sc.Name() == name
+			}
+		}
+		var miss []string
+		unknowns := core.InlinedInstrsFrom(c, fn, region, 2, isCallTo("CallUnknown"))
+		if len(unknowns) == 0 {
+			miss = append(miss, "no CallUnknown")
+		}
+		readsArgs, readsValue := false, false
+		for _, ii := range unknowns {
+			call := ii.Ins.(*ssa.Call)
+			if len(call.Call.Args) < 2 {
+				continue
+			}
+			sl := ii.Slice(call.Call.Args[1])
+			readsArgs = readsArgs || sl.HasSuffix("Call", "Args")
+			readsValue = readsValue || sl.HasSuffix("Call", "Value")
+		}
+		if len(unknowns) > 0 && !readsArgs {
+			miss = append(miss, "Call.Args does not reach CallUnknown")
+		}
+		if len(unknowns) > 0 && !readsValue {
+			miss = append(miss, "Call.Value (closure/receiver) does not reach CallUnknown")
+		}
+		// kinds of callee value for which the node of Call.Value is created
+		var targets []core.InlinedInstr
+		for _, ii := range core.InlinedInstrsFrom(c, fn, region, 2, isCallTo("ValueNode")) {
+			call := ii.Ins.(*ssa.Call)
+			for _, a := range call.Call.Args {
+				if ii.PathOf(a) == "Call.Value" {
+					targets = append(targets, ii)
+				}
+			}
+		}
+		var lost []string
+		for _, k := range kinds {
+			ok := false
+			for _, ti := range targets {
+				if ti.ReachableForKind(entry, "Call.Value", k) {
+					ok = true
+				}
+			}
+			if !ok {
+				lost = append(lost, core.ShortType(k))
+			}
+		}
+		sort.Strings(lost)
+		if len(lost) > 0 && readsValue {
+			miss = append(miss, "the callee value is not leaked when it is a "+strings.Join(lost, ", ")+" (e.g. `func spawn(f func()) { "+strings.ToLower(form)+" f() }`)")
+		}
+		sort.Strings(miss)
+		r.Check(len(miss) == 0, "R14.go", t.Func+"|"+arm, c.Pos(entry.Instrs[0].Pos()),
+			fmt.Sprintf("%s arm leaks every tracked argument and, for each of the %d data-carrying kinds of callee value, the callee value through CallUnknown", strings.ToLower(form), len(kinds)),
+			fmt.Sprintf("%s arm incomplete (%s): objects handed to the %s stay Local", strings.ToLower(form), strings.Join(miss, "; "), map[string]string{"Go": "new goroutine", "Defer": "deferred call"}[form]))
 	}
-	if !readsArgs {
-		miss = append(miss, "Call.Args not read")
-	}
-	if !readsValue {
-		miss = append(miss, "Call.Value (closure/receiver) not read")
-	}
-	sort.Strings(miss)
-	r.Check(len(miss) == 0, "R14.go", t.Func+"|go-arm", c.Pos(goClause.Pos()), "go arm leaks every tracked argument and the callee value through CallUnknown",
-		fmt.Sprintf("go arm incomplete (%s): objects handed to a new goroutine stay Local", strings.Join(miss, "; ")))
 }
